@@ -112,7 +112,9 @@ theorem destAngle_bound : ∀ (n : Nat) (l : Bytes), l.length ≤ n → ∀ (i j
         · simp at h
       · split at h
         · simp at h; omega
-        · have := ih rest (by omega) _ _ h; omega
+        · split at h
+          · simp at h
+          · have := ih rest (by omega) _ _ h; omega
 
 theorem destPlain_bound : ∀ (n : Nat) (l : Bytes), l.length ≤ n → ∀ (i : Nat) (o : Int),
     i ≤ destPlain l i o ∧ destPlain l i o ≤ i + l.length := by
